@@ -1,2 +1,5 @@
 -- Root of the `BindgenModel` library: models, generated tables, lemmas, property theorems.
 import BindgenModel.Model.BitfieldUnit
+import BindgenModel.Model.Depfile
+import BindgenModel.Model.Includes
+import BindgenModel.Model.CDecl
